@@ -4,15 +4,19 @@ check(
     "Parser half: searches for an argv on which Command::from_resp and Command::from_resp_zero_copy do not produce the same Command (Debug rendering) or the same "
     "error string, or on which either panics. The argv come from a grammar table of every command and subcommand name either parser knows: two exhaustive "
     "enumerations (every arity 0..max+2 of every name in three letter cases plus EVAL/EVALSHA x numkeys; every sequence with repetition of up to three option "
-    "keywords with and without values) and 3 M (quick) / 100 M (thorough) generated frames with integers at and beyond the i64/u64/isize limits, floats incl. "
+    "keywords with and without values) and 18 M (quick) / 30 M (thorough) generated frames with integers at and beyond the i64/u64/isize limits, floats incl. "
     "nan/inf/1e400, non-UTF-8 and empty arguments, shuffled and repeated options, arity perturbation and one adversarial replacement. "
+    "The same comparison on frames whose elements are not all bulk strings (what the frame decoders also deliver): an exhaustive matrix (27 884 frames: every single position of every "
+    "arity prefix of every command as integer / simple string / error / nil bulk / nil array / nested array / empty array, every numeric text as an integer element singly and "
+    "all at once incl. option values, integer elements at the i64/u32 limits, nil-array and non-array frames) and 3 M (quick) / 10 M (thorough) generated frames with a type overlay. "
     "Lua half: searches for a (state, invocation) on which executing the invocation directly and through EVAL 'return redis.call|pcall(table.unpack(ARGV))' on a twin "
-    "executor with the same state and clock differ in keyspace dump or in reply under the documented RESP->Lua->RESP conversion (100 000 quick / 3 M thorough twins, "
+    "executor with the same state and clock differ in keyspace dump or in reply under the documented RESP->Lua->RESP conversion (600 000 quick / 3 M thorough twins; in about one "
+    "twin in six the script passes the integer-valued arguments as Lua integers or floats instead of strings, "
     "plus an exhaustive walk of which command names scripts can call at all). Silence means no counterexample among those inputs. Eleven root causes are listed and "
     "searched past by exact signatures (KF-C16-01..11: two text/acceptance differences between the parsers, two panics in both parsers, the translator's coverage gap "
     "of 70 command names, five drifts inside covered commands, and its own argument-error texts).",
     "two Commands that differ render differently under Debug; the RESP->Lua->RESP conversion is the one Redis documents (status<->{ok=}, error raised by call / returned "
-    "by pcall, integer<->number, bulk<->string, nil->false->nil, array<->table, nil inside an array ends the table); for redis.call an error only has to contain the "
+    "by pcall, integer<->number, bulk<->string, nil->false->nil, array<->table, nil inside an array ends the table; a Lua number argument that is an integer of magnitude <= 2^53 is passed as its canonical decimal text); for redis.call an error only has to contain the "
     "direct error text; SMEMBERS/HGETALL/KEYS/HKEYS/HVALS are compared as multisets and RANDOMKEY/SPOP/SCAN*/INFO only by outcome kind (two executor instances iterate "
     "hash tables differently); commands Redis flags noscript may be refused from scripts; the command-name table in the check is complete for the tree at hand (a name "
     "added to the parsers later is only covered by the generic Unknown / coverage checks); the unstructured libFuzzer target cmd_parse_diff (thorough tier) is separate",
